@@ -13,11 +13,12 @@ CONSTANTS Toks,         \* the token alphabet of header words
           KeyLen,       \* keys are words of 0..KeyLen tokens
           ValLen,       \* string values are words of 0..ValLen tokens
           TwoKeys,      \* also dicts with two one-token keys / values
+          SecondToks,   \* ... the second value being one of these tokens
           NRows,        \* row counts written into the SIZE line
           DoExport
 
-VARIABLES phase, hc, file, rd
-vars == <<phase, hc, file, rd>>
+VARIABLES phase, hc, file, wr, rd
+vars == <<phase, hc, file, wr, rd>>
 
 Words(n) == UNION {[1..k -> Toks] : k \in 0..n}
 
@@ -43,29 +44,30 @@ I4 == <<">", "i", "4">>
 
 NoCase == [n |-> 0, name |-> <<>>, ents |-> <<>>]
 NoRd   == [err |-> "none", offset |-> 0, size |-> -1, ents |-> <<>>, text |-> <<>>]
+NoWr   == [hdr |-> <<>>, ents |-> <<>>]          \* what the writer produced: header text, the dict it wrote
 
-Init == phase = "start" /\ hc = NoCase /\ file = <<>> /\ rd = NoRd
+Init == phase = "start" /\ hc = NoCase /\ file = <<>> /\ wr = NoWr /\ rd = NoRd
 
 ChooseKey ==
     /\ phase = "start"
     /\ \E k \in Words(KeyLen), nm \in FieldNames, n \in NRows :
           hc' = [n |-> n, name |-> nm, ents |-> <<[k |-> k, v |-> SStr(<<>>)]>>]
-    /\ phase' = "key" /\ UNCHANGED <<file, rd>>
+    /\ phase' = "key" /\ UNCHANGED <<file, wr, rd>>
 
 ChooseValue ==
     /\ phase = "key"
     /\ \E v \in {SStr(w) : w \in Words(ValLen)} \cup Nested :
           hc' = [hc EXCEPT !.ents[1].v = v]
-    /\ phase' = "case" /\ UNCHANGED <<file, rd>>
+    /\ phase' = "case" /\ UNCHANGED <<file, wr, rd>>
 
-\* a second entry: one-token key (different from the first), one-token or empty string value
+\* a second entry: one-token or empty key (different from the first), one-token string value
 ChooseSecond ==
     /\ TwoKeys /\ phase = "case" /\ Len(hc.ents) = 1 /\ Len(hc.ents[1].k) <= 1 /\ hc.name = <<"x">>
     /\ hc.ents[1].v.t = "str" /\ Len(hc.ents[1].v.w) <= 1
-    /\ \E k \in Words(1), w \in Words(1) :
+    /\ \E k \in Words(1), w \in {<<t>> : t \in SecondToks} :
           /\ WordChars(k) # WordChars(hc.ents[1].k)
           /\ hc' = [hc EXCEPT !.ents = @ \o <<[k |-> k, v |-> SStr(w)]>>]
-    /\ UNCHANGED <<phase, file, rd>>
+    /\ UNCHANGED <<phase, file, wr, rd>>
 
 \* ---- the texts of the case ---------------------------------------------------------------
 UserEntries == [i \in DOMAIN hc.ents |-> [k |-> WordChars(hc.ents[i].k), v |-> ToV(hc.ents[i].v)]]
@@ -79,22 +81,24 @@ Modelled == EntriesFit(Entries)           \* pprint wraps between entries only
 
 \* SFile._write_header + Recfile.write
 WriteHeader ==
-    /\ phase = "case" /\ Modelled
-    /\ file' = Header \o Data
+    /\ phase = "case"
+    /\ LET es == Entries IN
+         /\ EntriesFit(es)
+         /\ LET h == HeaderBytes(hc.n, es) IN file' = h \o Data /\ wr' = [hdr |-> h, ents |-> es]
     /\ phase' = "written" /\ UNCHANGED <<hc, rd>>
 
 \* records.cpp read_sfile_header
 ReadSfileHeader ==
     /\ phase = "written"
-    /\ LET r == ReadSfileHeader(file) IN rd' = [NoRd EXCEPT !.err = r.err, !.offset = r.offset, !.text = r.text]
-    /\ phase' = "scanned" /\ UNCHANGED <<hc, file>>
+    /\ LET r == CppReadSfileHeader(file) IN rd' = [NoRd EXCEPT !.err = r.err, !.offset = r.offset, !.text = r.text]
+    /\ phase' = "scanned" /\ UNCHANGED <<hc, file, wr>>
 
 \* SFile.read_header (split, SIZE line, eval)
 ReadHeader ==
     /\ phase = "scanned"
     /\ IF rd.err # "none" THEN rd' = rd
        ELSE LET p == ParseHeader(rd.text) IN rd' = [rd EXCEPT !.err = p.err, !.size = p.size, !.ents = p.ents]
-    /\ phase' = "done" /\ UNCHANGED <<hc, file>>
+    /\ phase' = "done" /\ UNCHANGED <<hc, file, wr>>
 
 Next == ChooseKey \/ ChooseValue \/ ChooseSecond \/ WriteHeader \/ ReadSfileHeader \/ ReadHeader
 NextExport == ChooseKey \/ ChooseValue \/ ChooseSecond
@@ -103,25 +107,32 @@ Spec == Init /\ [][Next]_vars
 
 \* ---- refinement obligations -------------------------------------------------------------------
 \* DataStart(Write(h)) = Len(HeaderBytes(h)): the rows are read from where they were written
-DataStartRefines == phase \in {"scanned", "done"} => (rd.offset = Len(Header) /\ rd.text = Header)
+DataStartRefines == phase \in {"scanned", "done"} => (rd.offset = Len(wr.hdr) /\ rd.text = wr.hdr)
 
 \* ParseDict(lines) = h, the stored count is the count written
 ParseRefines == phase = "done" =>
     /\ rd.err = "none"
     /\ rd.size = hc.n
-    /\ AsDict(rd.ents) = AsDict(Entries)
+    /\ AsDict(rd.ents) = AsDict(wr.ents)
 
 \* theorems about the writer: the terminator line occurs exactly once in the header, at its end
 RECURSIVE CountAt(_, _, _)
 CountAt(s, pat, i) == IF i + Len(pat) - 1 > Len(s) THEN 0
                       ELSE (IF SubSeq(s, i, i + Len(pat) - 1) = pat THEN 1 ELSE 0) + CountAt(s, pat, i + 1)
 TerminatorUnique == phase = "written" =>
-    /\ CountAt(Header, <<NL>> \o T_END \o <<NL>>, 1) = 1
-    /\ SubSeq(Header, Len(Header) - 5, Len(Header)) = <<NL>> \o T_END \o <<NL, NL>>
+    /\ CountAt(wr.hdr, <<NL>> \o T_END \o <<NL>>, 1) = 1
+    /\ SubSeq(wr.hdr, Len(wr.hdr) - 5, Len(wr.hdr)) = <<NL>> \o T_END \o <<NL, NL>>
 
 \* vacuity: the space really contains headers with END inside (checked by the harness through coverage of
 \* WriteHeader and by the END3 self-test, which must violate the obligations)
 
 \* ---- export -----------------------------------------------------------------------------------------
-Export == (DoExport /\ phase = "case" /\ Modelled) => PrintT(<<"HCASE", ToJson(hc)>>)
+\* hlen: the data offset the writer model predicts (compared with the real file by the harness);
+\* pinned_fails: the pinned scanner (first E,N,D anywhere) would not find the rows of this file
+Export == (DoExport /\ phase = "case") =>
+              LET es == Entries IN
+              EntriesFit(es) =>
+                 LET h == HeaderBytes(hc.n, es) IN
+                 PrintT(<<"HCASE", ToJson([n |-> hc.n, name |-> hc.name, ents |-> hc.ents, hlen |-> Len(h),
+                                           pinned_fails |-> CppReadSfileHeaderS(h \o Data, "END3").offset # Len(h)])>>)
 =============================================================================
